@@ -329,6 +329,15 @@ def scenario(chk, pr, xvc, idx, rng, forced=None):
                 rc, out, err = sb.x('file', 'track', *targets)
                 dts = [t.rstrip('/') for t in targets if t.endswith('/')]
                 fts = sorted(f for f in on_disk if any(f == t or (t.endswith('/') and f.startswith(t)) for t in targets))
+                # a .gitignore that git does not track (xvc wrote it inside a git-ignored directory, so the auto-commit could
+                # not add it) is an ordinary untracked file for `xvc file track dir/`
+                _, ls, _ = sb.git('ls-files')
+                in_git = set(ls.split('\n'))
+                for d2, _c in list(before.items()):
+                    g = (d2 + '/' if d2 else '') + GI
+                    if g not in in_git and any(t.endswith('/') and g.startswith(t) for t in targets):
+                        fts.append(g)
+                fts = sorted(set(fts))
                 # cmd_track: update_dir/file_gitignores, then carry-in rechecks the newly committed files (ignore handler)
                 exp = model_after(pr, 'gtrack', ents, dts, fts)
                 new = sorted(set(fts) - tracked)
